@@ -234,6 +234,8 @@ def step (st : St) (toks : List String) : St × String :=
       ({ st with handle := c.handle, lock := c.lock, waiting := c.waiting, gateOf := c.gateOf },
         if ok then "ok" else "blocked")
     | none => (st, "bad-op")
+  -- free-running races: which specification wins is not predicted; the harness judges consistency
+  | "CRACE" :: _ => (st, "ok")
   | "CQUIET" :: _ => (st, handleStr st.handle)
   | ["HANDLE"] => (st, handleStr st.handle)
   | _ => (st, "bad-op")
